@@ -1,12 +1,16 @@
 package transaction
 
 import (
+	"sync"
+
 	"github.com/glebziz/containers/omap"
 
 	"github.com/glebziz/fs_db/internal/model"
 )
 
 type Repo struct {
+	// m guards storage: the iterator of the ordered map is not synchronised with its writers.
+	m       sync.RWMutex
 	storage *omap.OMap[string, model.Transaction]
 }
 
